@@ -613,6 +613,10 @@ class Executor:
         """Run all steps; hooks.after_step(executor, i, step, rec) may append violations."""
         viol = []
         states = {}
+        # NumPy seeds its global generator from OS entropy at import: put it in a state
+        # that is a function of the run seed before the first step (one integer decides
+        # everything, DESIGN 2.3)
+        self.w._orig_seed((int(self.trace.get("seed") or 0) * 2654435761 + 12345) % (2 ** 32))
         for i, step in enumerate(self.trace["steps"]):
             k = step["k"]
             if k == "new":
